@@ -290,29 +290,33 @@ C17_MsgOfType(S) ==
 NoFields == <<>>
 Exps(S, i, j) ==           \* i: the message the expectation is written for; j: some other message
   <<NoFields, [x |-> S[i].f.x], [x |-> S[j].f.x], [x |-> S[i].f.x, c |-> S[i].f.c], [x |-> S[i].f.x, z |-> 0], [c |-> S[i].f.c + 1]>>
-ExpNames == <<"none", "right", "wrong_value", "two_right", "missing_key", "wrong_constant">>
+\*          none      right             wrong value       two right                          missing key                    wrong constant
 Other(S, i) == IF Len(S) = 1 THEN 1 ELSE IF i = Len(S) THEN 1 ELSE i + 1
 \* the second started action of the type if there is one (its values must NOT be accepted), else any other message
 SecondOr(S, st, i) == IF Len(st) >= 2 THEN st[2] ELSE Other(S, i)
 ActionQueries(S, ty) ==
   LET st == StartsOfType(S, ty) IN
-  IF st = <<>> THEN {[ty |-> ty, succ |-> b, sf |-> NoFields, ef |-> NoFields, kind |-> "absent"] : b \in BOOLEAN}
+  IF st = <<>> \/ \E j \in DOMAIN st : ~FullyFinished(S, ActOf(S[st[j]]))
+  THEN {[ty |-> ty, succ |-> b, sf |-> NoFields, ef |-> NoFields] : b \in BOOLEAN}
   ELSE LET i  == st[1]
            ei == EndIdx(S, S[i].u, Front(S[i].lv))
            e  == IF ei = {} THEN i ELSE CHOOSE x \in ei : TRUE
+           ok == IF ei = {} THEN TRUE ELSE S[e].st = "succeeded"
            e2 == IF Len(st) >= 2 /\ EndIdx(S, S[st[2]].u, Front(S[st[2]].lv)) # {}
                  THEN CHOOSE x \in EndIdx(S, S[st[2]].u, Front(S[st[2]].lv)) : TRUE ELSE Other(S, e)
            SF == Exps(S, i, SecondOr(S, st, i))
            EF == Exps(S, e, e2)
-       IN {[ty |-> ty, succ |-> b, sf |-> SF[p[1]], ef |-> EF[p[2]], kind |-> ExpNames[p[1]] \o "/" \o ExpNames[p[2]]] :
-              b \in BOOLEAN, p \in {<<1, 1>>, <<2, 2>>, <<4, 4>>, <<3, 1>>, <<1, 3>>, <<5, 1>>, <<1, 5>>, <<6, 2>>, <<2, 6>>}}
+       IN \* everything right (three ways), then exactly one thing wrong: a start field, an end field, the outcome
+          {[ty |-> ty, succ |-> ok, sf |-> SF[p[1]], ef |-> EF[p[2]]] :
+              p \in {<<1, 1>>, <<2, 2>>, <<4, 4>>, <<3, 1>>, <<1, 3>>, <<5, 1>>, <<1, 5>>, <<6, 2>>, <<2, 6>>}}
+          \cup {[ty |-> ty, succ |-> ~ok, sf |-> SF[p], ef |-> EF[p]] : p \in {1, 2}}
 MessageQueries(S, ty) ==
   LET ms == {i \in DOMAIN S : S[i].k = "msg" /\ S[i].ty = ty} IN
-  IF ms = {} THEN {[ty |-> ty, exp |-> NoFields, kind |-> "absent"]}
+  IF ms = {} THEN {[ty |-> ty, exp |-> NoFields]}
   ELSE LET i == Min(ms)
            j == IF ms \ {i} # {} THEN Min(ms \ {i}) ELSE Other(S, i)
            E == Exps(S, i, j)
-       IN {[ty |-> ty, exp |-> E[p], kind |-> ExpNames[p]] : p \in 1..6}
+       IN {[ty |-> ty, exp |-> E[p]] : p \in 1..6}
 
 \* the assert helpers succeed exactly when the first entry of the type has the expected outcome and a superset of
 \* the expected fields (and then return that entry)
